@@ -58,6 +58,9 @@ CHECKS["C05"] = dict(text="reusable-resource problems built around planted load 
                      note=_PLAN_NOTE, technique="runtime monitoring: conservation/sweep oracle over reported plans and extracted timelines")
 CHECKS["C06"] = dict(text="facts and goals on plain Interval/Impulse predicates, rule sub-goals, agents, state variables and resources with release/deadline constraints and tight horizons; every active temporal atom is checked against origin <= start <= end <= horizon, duration = end - start >= 0 (origin <= at <= horizon)",
                      note=_PLAN_NOTE, technique="runtime monitoring: direct evaluation of the temporal invariant on every reported atom")
+CHECKS["C18"] = dict(text="three monitors: (1) thousands of prefixes / delimiter edits / pathological literals / random byte and token strings given to riddle_parser and solver::read under ASan+UBSan with a 10 s / memory bound per input (thorough: plus libFuzzer on both entry points); (2) every solver-level workload family and the shipped examples through read()+solve() under ASan+UBSan with assertions on and on the Release build; (3) every network-level workload family under ASan+UBSan with assertions on and LeakSanitizer; any signal, abort, std::terminate, sanitizer report, failed assertion, reader non-termination or network-layer leak is a violation",
+                     note="a clean sanitizer run is not memory safety; solver search that exceeds the budget is inconclusive; UBSan vptr is off (deliberate construction idiom) and signed overflow is logged only; leaks are judged for the network layer only",
+                     technique="runtime monitoring: compiler sanitizers + assertion builds + watchdogs over hostile reader inputs and the other properties' workloads")
 NA_REASON = "check not built yet in this round (planned; see DESIGN.md)"
 
 hooks_commits = subprocess.run(["git", "-C", "/repo", "log", "--format=%h", "--grep=ORATIO_VERIF"], stdout=subprocess.PIPE, text=True).stdout.split()
